@@ -60,13 +60,15 @@ type Ctx struct {
 	InlineLog []string
 
 	cg      *callgraph.Graph
+	pit     []pitfall
+	reach   map[string]map[string]bool
 	deadNew map[*types.Func]bool
 	succ    map[string]*ssa.Function
 }
 
 // Callees resolves a call instruction through the VTA call graph built over the
 // repository's own functions (seeded with CHA).
-func (c *Ctx) Callees(ci ssa.CallInstruction) []*ssa.Function {
+func (c *Ctx) ensureCG() {
 	if c.cg == nil {
 		funcs := map[*ssa.Function]bool{}
 		for _, fn := range c.RepoFuncs() {
@@ -74,6 +76,10 @@ func (c *Ctx) Callees(ci ssa.CallInstruction) []*ssa.Function {
 		}
 		c.cg = vta.CallGraph(funcs, cha.CallGraph(c.Prog))
 	}
+}
+
+func (c *Ctx) Callees(ci ssa.CallInstruction) []*ssa.Function {
+	c.ensureCG()
 	n := c.cg.Nodes[ci.Parent()]
 	if n == nil {
 		return nil
@@ -285,6 +291,9 @@ replace %[4]s => %[1]s
 		}
 	}
 	computeTypeRenames(c)
+	computeSetOnce(c)
+	computeImmutableGlobals(c)
+	c.deadNew = nil // computed before the normalisation log is attached: recompute on first use
 	return c, nil
 }
 
@@ -295,9 +304,10 @@ var typeRenames = map[string]string{}
 
 func computeTypeRenames(c *Ctx) {
 	typeRenames = map[string]string{}
+	typeMoves = map[string][2]string{}
 	for key := range baselineTypes {
 		pkg, name, ok := strings.Cut(key, "\t")
-		if !ok || strings.HasPrefix(name, "var:") || name == "" || ast.IsExported(name) {
+		if !ok || strings.HasPrefix(name, "var:") || strings.HasPrefix(name, "field:") || name == "" || ast.IsExported(name) {
 			continue
 		}
 		p := c.Pkgs[pkg]
@@ -340,8 +350,60 @@ func computeTypeRenames(c *Ctx) {
 		}
 		if len(cands) == 1 {
 			typeRenames[key] = cands[0]
+			continue
+		}
+		// moved into another package of the repository (and exported there, if it had to be): the one
+		// new type anywhere that has all the methods the pinned type had
+		if len(cands) == 0 && len(want) > 0 {
+			var moved [][2]string
+			for pp, q := range c.Pkgs {
+				if pp == pkg {
+					continue
+				}
+				sc2 := q.Types.Scope()
+				for _, n := range sc2.Names() {
+					tn, ok := sc2.Lookup(n).(*types.TypeName)
+					if !ok || baselineTypes[pp+"\t"+n] || tn.IsAlias() {
+						continue
+					}
+					named, ok := tn.Type().(*types.Named)
+					if !ok {
+						continue
+					}
+					have := map[string]bool{}
+					for i := 0; i < named.NumMethods(); i++ {
+						have[named.Method(i).Name()] = true
+					}
+					all := true
+					for m := range want {
+						if !have[m] {
+							all = false
+						}
+					}
+					if all && strings.EqualFold(n, name) {
+						moved = append(moved, [2]string{pp, n})
+					}
+				}
+			}
+			if len(moved) == 1 {
+				typeMoves[key] = moved[0]
+			}
 		}
 	}
+}
+
+// typeMoves: an unexported type of the pinned tree that now lives in another package of the
+// repository. Key "pkg\told" -> (new package path, new name).
+var typeMoves = map[string][2]string{}
+
+// movedTypeTarget reports whether pkg.name is where a pinned type moved to.
+func movedTypeTarget(pkg, name string) (string, bool) {
+	for k, v := range typeMoves {
+		if v[0] == pkg && v[1] == name {
+			return k, true
+		}
+	}
+	return "", false
 }
 
 // curTypeName: the name the pinned type pkg.name has in the loaded tree.
@@ -469,6 +531,11 @@ func (c *Ctx) funcExact(pkg, recv, name string) (*ssa.Function, error) {
 		return fn, nil
 	}
 	obj := sp.Pkg.Scope().Lookup(curTypeName(pkg, recv))
+	if mv, moved := typeMoves[pkg+"\t"+recv]; moved && obj == nil {
+		if sp2 := c.SSA[mv[0]]; sp2 != nil {
+			obj = sp2.Pkg.Scope().Lookup(mv[1])
+		}
+	}
 	tn, ok := obj.(*types.TypeName)
 	if !ok {
 		return nil, fmt.Errorf("anchor: type %s.%s not found", pkg, recv)
@@ -529,7 +596,10 @@ func (c *Ctx) deadNewHelpers() map[*types.Func]bool {
 		for _, f := range p.Syntax {
 			for _, d := range f.Decls {
 				fd, ok := d.(*ast.FuncDecl)
-				if !ok || fd.Name.IsExported() || baselineFuncs[declKey(path, fd)] {
+				if !ok || baselineFuncs[declKey(path, fd)] {
+					continue
+				}
+				if fd.Name.IsExported() && (fd.Recv != nil || !strings.Contains(path+"/", "/internal/")) {
 					continue
 				}
 				if o, ok := p.TypesInfo.Defs[fd.Name].(*types.Func); ok && !used[o] {
